@@ -226,6 +226,9 @@ class C18(Prop):
             if sol is None or sol.x is None or np.isnan(sol.objval) or 'lose' in str(sol.status):
                 return Outcome.skip('soc_not_solved', labels)
             val = m.get()
+            from vf.props.c11 import check_formula
+            if len(sol.x) == g.linear.shape[1] and check_formula(g, sol.x, 1e-5) is not None:
+                return Outcome.skip('soc_solver_returned_infeasible_point', labels)
             # relative to the magnitude of the terms that are approximated (a sum of logs can cancel to 0)
             if case['atom'] == 'expcone':
                 mag = abs(expect)
@@ -288,6 +291,11 @@ class C18(Prop):
             return Outcome.skip('soc_not_solved', labels)
         approx = m.get()
         approx_obj = float(sol2.objval)
+        from vf.props.c11 import check_formula
+        if len(sol2.x) == g.linear.shape[1] and check_formula(g, sol2.x, 1e-5) is not None:
+            # the cone solver flagged 'optimal' a point that violates the second-order program it was given (seen with ECOS on a
+            # degree-8 tower): a solver failure, nothing to learn about the approximation
+            return Outcome.skip('soc_solver_returned_infeasible_point', labels)
         if case.get('hist'):
             # history: a constraint added after soc_solve() must be seen by the next soc_solve()
             xs2 = np.array(detmodel.get_x(case, pieces), dtype=float)
